@@ -48,7 +48,7 @@ SPECS = {
                 what='ids come from the length of an append-only vector; rejected requests mutate nothing; variants.push is control-dependent on pending changes; build() dominated by both emptiness checks; each strategy lists each added id once'),
     'C13': dict(level='translation_validation', engines=['GEN', 'SRC'], rules=['G-PANIC', 'G-COMPILES', 'S-SENTINEL', 'S-RAW'],
                 stats=[],
-                what='no arithmetic on an offset obtained through the raw datum collection; every corpus module × fragment selection type-checks; builder/generator panics on corpus definitions are reported'),
+                what='no arithmetic on an offset obtained through the raw datum collection unless the placeholder usize::MAX is told apart (S-SENTINEL; S-RAW for walks inside the generator); every corpus module × fragment selection type-checks; builder/generator panics on corpus definitions are reported'),
     'C14': dict(level='translation_validation', engines=['GEN'], rules=['G-AUTO', 'G-LAYOUT'],
                 stats=['auto_trait_queries'],
                 what='for every record type: Send/Sync (rustc trait solver) iff every field type is'),
